@@ -8,6 +8,8 @@
 package simsync
 
 import (
+	"fmt"
+	"sort"
 	"sync"
 	"unsafe"
 
@@ -15,7 +17,86 @@ import (
 )
 
 type Locker = sync.Locker
-type Map = sync.Map
+
+// Map is sync.Map with a scheduling point before and after every operation
+// (it needs no modelling: the real map is safe, and only one task runs at a
+// time; what matters is that another task can run between two operations).
+type Map struct{ real sync.Map }
+
+func (m *Map) Load(key any) (value any, ok bool) {
+	simrt.SyncPoint(-80)
+	value, ok = m.real.Load(key)
+	simrt.SyncPoint(-81)
+	return
+}
+func (m *Map) Store(key, value any) {
+	simrt.SyncPoint(-80)
+	m.real.Store(key, value)
+	simrt.SyncPoint(-81)
+}
+func (m *Map) LoadOrStore(key, value any) (actual any, loaded bool) {
+	simrt.SyncPoint(-80)
+	actual, loaded = m.real.LoadOrStore(key, value)
+	simrt.SyncPoint(-81)
+	return
+}
+func (m *Map) LoadAndDelete(key any) (value any, loaded bool) {
+	simrt.SyncPoint(-80)
+	value, loaded = m.real.LoadAndDelete(key)
+	simrt.SyncPoint(-81)
+	return
+}
+func (m *Map) Delete(key any) {
+	simrt.SyncPoint(-80)
+	m.real.Delete(key)
+	simrt.SyncPoint(-81)
+}
+func (m *Map) Swap(key, value any) (previous any, loaded bool) {
+	simrt.SyncPoint(-80)
+	previous, loaded = m.real.Swap(key, value)
+	simrt.SyncPoint(-81)
+	return
+}
+func (m *Map) CompareAndSwap(key, old, new any) bool {
+	simrt.SyncPoint(-80)
+	ok := m.real.CompareAndSwap(key, old, new)
+	simrt.SyncPoint(-81)
+	return ok
+}
+func (m *Map) CompareAndDelete(key, old any) bool {
+	simrt.SyncPoint(-80)
+	ok := m.real.CompareAndDelete(key, old)
+	simrt.SyncPoint(-81)
+	return ok
+}
+
+// Range visits a snapshot of the entries in an order chosen by the tape (the
+// real map's order is unspecified and would not replay).
+func (m *Map) Range(f func(key, value any) bool) {
+	simrt.SyncPoint(-80)
+	type kv struct {
+		k, v any
+		s    string
+	}
+	var es []kv
+	m.real.Range(func(k, v any) bool {
+		es = append(es, kv{k, v, fmt.Sprintf("%T:%v", k, k)})
+		return true
+	})
+	sort.SliceStable(es, func(i, j int) bool { return es[i].s < es[j].s })
+	for i := len(es) - 1; i > 0; i-- {
+		j := simrt.Choose(i + 1)
+		es[i], es[j] = es[j], es[i]
+	}
+	for _, e := range es {
+		simrt.SyncPoint(-82)
+		if !f(e.k, e.v) {
+			break
+		}
+	}
+	simrt.SyncPoint(-81)
+}
+
 type Pool = sync.Pool
 
 // ord gives each sync object a small deterministic ordinal for logs/hashes.
